@@ -110,6 +110,7 @@ type Interp struct {
 	guessHits, guessMiss int
 	setupCells           map[*Cell]bool
 	setupMaps            map[*Map]bool
+	self                 *selfState // translator validation (selftest.go)
 }
 
 func newInterp(prog *ssa.Program, cfg *Config) *Interp {
